@@ -298,6 +298,20 @@ pub fn run(ctx: &Ctx) {
     );
 }
 
+/// thorough tier: coverage-guided differential campaign
+pub fn fuzz(ctx: &Ctx) {
+    if ctx.tier == crate::engine::Tier::Thorough {
+        let mut s1 = vec![5u8, 60, 130];
+        s1.extend_from_slice(h2::PREFACE);
+        s1.extend(h2::window_update_frame(0, 15663105, false));
+        s1.extend(h2::settings_frame(&[(1, 65536), (3, 1000), (4, 6291456)], false));
+        s1.extend(h2::priority_frame(3, &PrioritySpec { exclusive: false, dep: 0, weight: 200 }));
+        s1.extend(h2::frame(h2::T_HEADERS, 0x05, 1, &[0x82, 0x84, 0x87, 0x41, 0x01, 0x61]));
+        ctx.fuzz_campaign("akamai_chunks", "seeded", &[s1], 3_000_000, 420);
+        ctx.fuzz_campaign("akamai_chunks", "empty", &[], 1_500_000, 300);
+    }
+}
+
 pub fn replay(_ctx: &Ctx, _sub: &str, input: &serde_json::Value) -> Result<(), Fail> {
     let c: ACase = serde_json::from_value(input["value"].clone()).map_err(|e| fail!("bad-replay", "{e}"))?;
     let mut st = Stats::new();
